@@ -28,7 +28,6 @@ from jax2onnx.plugins.jax.numpy._common import (
 )
 from jax2onnx.plugins.plugin_system import PrimitiveLeafPlugin, register_primitive
 
-
 _GREATER_EQUAL_PRIM: Final = make_jnp_primitive("jax.numpy.greater_equal")
 
 
@@ -116,7 +115,9 @@ class JnpGreaterEqualPlugin(PrimitiveLeafPlugin):
         rhs_dtype: np.dtype[Any] = np.dtype(
             getattr(getattr(rhs_var, "aval", None), "dtype", np.float32)
         )
-        target_dtype: np.dtype[Any] = np.promote_types(lhs_dtype, rhs_dtype)
+        target_dtype: np.dtype[Any] = np.dtype(
+            jnp.promote_types(lhs_dtype, rhs_dtype)
+        )  # JAX's promotion lattice (int32 with float32 is float32), not NumPy's
         target_ir = _dtype_to_ir(target_dtype, ctx.builder.enable_double_precision)
 
         lhs_cmp = lhs_val
